@@ -13,9 +13,19 @@ subprocess.run(['git','-C',wt,'checkout','-q','--detach',subprocess.run(['git','
 subprocess.run(['git','-C',wt,'checkout','-q','--','.'],check=True)
 p = os.path.join(wt, path)
 s = open(p).read()
-if s.count(old) != 1:
-    sys.exit(f"OLD text occurs {s.count(old)} times in {path}")
-open(p,'w').write(s.replace(old,new))
+nth = int(os.environ.get('NTH', '0'))
+if nth == 0 and s.count(old) != 1:
+    sys.exit(f"OLD text occurs {s.count(old)} times in {path} (set NTH=k to pick the k-th)")
+if nth == 0:
+    s2 = s.replace(old, new)
+else:
+    pos = -1
+    for _ in range(nth):
+        pos = s.find(old, pos + 1)
+        if pos < 0:
+            sys.exit(f"OLD text occurs fewer than {nth} times")
+    s2 = s[:pos] + new + s[pos+len(old):]
+open(p,'w').write(s2)
 d = subprocess.run(['git','-C',wt,'diff'],capture_output=True,text=True).stdout
 os.makedirs(f'/verif/selftest/{cid}',exist_ok=True)
 open(f'/verif/selftest/{cid}/{name}.patch','w').write(d)
